@@ -34,8 +34,10 @@ def _race(ctx):
     rc, out = common.sh([common.BIN + "/qh_race", "jobs", "--seed", str(ctx.seed), "--n", "20", "--leak", "90", "--maxcode", "600", "--out", d], timeout=1800)
     ctx.coverage["race_detector_run"] = {"exit": rc, "tail": out[-300:]}
     if rc != 0 or "DATA RACE" in out:
-        common.report_violation(ctx, "C16 data race (or failure) while executing one job object from 8 goroutines under -race: " + out[-600:],
-                                {"engine": "jobs -race", "log": out[-4000:]})
+        i = out.find("WARNING: DATA RACE")
+        out = out[i:] if i >= 0 else out[-4000:]
+        common.report_violation(ctx, "C16 data race (or failure) while executing one job object from 8 goroutines under -race: " + " ".join(out[:700].split()),
+                                {"engine": "jobs -race", "log": out[:6000]})
 
 
 def run(ctx):
@@ -51,9 +53,11 @@ def run(ctx):
             results.append(generic.engine_run(ctx, "jobs", ["--seed", str(ctx.seed * 1000 + k), "--n", "200", "--leak", str(300 * k)], "extra%d" % k, timeout=1500))
         _race(ctx)
     bad = generic.proof_cov(ctx, extra_trusted=TRUSTED)
-    generic.judge(ctx, results, bad, "jobs",
+    concrete, tie = generic.judge(ctx, results, bad, "jobs",
                   widen=lambda: (generic.engine_run(ctx, "jobs", ["--seed", str(ctx.seed * 7919 + k), "--n", "120", "--leak", "600"], "search%d" % k, timeout=1500)
                                  for k in range(1, 3)))
+    if (bad or tie) and not concrete and not ctx.thorough:
+        _race(ctx)  # a broken tie without a failing input: look for a data race before giving up
     generic.fill_coverage(ctx, results, RULE)
     ok = [r for r in results if not r.get("failed")]
     notes = sorted({n for r in ok for n in (r["stats"].get("notes") or [])})
